@@ -30,6 +30,11 @@ Correspondence on random respondent-level surveys (harness/props/cube_util.py):
       implementation's blocks (NaN where a difference crosses the additive direction), together
       with the subtotal part of rows_margin / rows_base / columns_margin / columns_base when these
       are 1-D and the subtotal values of the strand's weighted / unweighted bases.
+  (f) READ-ORDER leg (common_cases.late_reads; every second case of (a) and of (e), up to three
+      partitions): the bases, margins, table bases and the two RANGES read after every other public
+      property of a second partition (read in a shuffled order) are the ones of a fresh partition on
+      which the per-cell bases were read first (a range that sorts the cached table bases in place is
+      visible only when it is read before them).
 """
 import json
 import math
@@ -466,6 +471,46 @@ def run_block_cases(cases, tag="blocks"):
 
 
 # ------------------------------------------------------------------------------------
+# (f) read order: a base read after everything else is the base read first
+# ------------------------------------------------------------------------------------
+
+LATE_SLICE = ["row_weighted_bases", "row_unweighted_bases", "column_weighted_bases", "column_unweighted_bases",
+              "table_weighted_bases", "table_unweighted_bases", "rows_margin", "rows_base", "columns_margin",
+              "columns_base", "table_margin", "table_base", "table_base_range", "table_margin_range"]
+LATE_STRAND = ["weighted_bases", "unweighted_bases", "table_base_range", "table_margin_range"]
+
+
+def late_read_fails(case, max_parts=3):
+    """-> (failures, partitions read)"""
+    import copy
+    from harness.props import common_cases as cc
+    if case.get("ca_as_0th"):
+        return [], 0
+    res = impl.guarded(lambda: impl.cube(case["response"]).partitions)
+    if res[0] != "ok":
+        return [], 0
+    fails, n = [], 0
+    for pidx, p in enumerate(res[1][:max_parts]):
+        tn = type(p).__name__
+        names = LATE_SLICE if tn == "_Slice" else LATE_STRAND if tn == "_Strand" else None
+        if names is None:
+            continue
+        fresh = {}
+        for nm in names:                      # per-cell bases first, the ranges last; frozen at once
+            r = impl.get(p, nm)
+            fresh[nm] = (r[0], copy.deepcopy(r[1])) if r[0] == "ok" else r
+        population, late = cc.late_reads({"response": case["response"], "transforms": None,
+                                          "k": 1000 * int(case.get("k", 0)) + pidx},
+                                         names, fresh, transforms=None, k=pidx)
+        n += 1
+        for nm, a, b, culprits in late[:1]:
+            fails.append({"what": "%s depends on what was read before" % nm, "part": pidx, "fresh": a,
+                          "after_other_reads": b, "population": population,
+                          "single_earlier_reads_that_change_it": culprits, "oracle": "order_independent"})
+    return fails, n
+
+
+# ------------------------------------------------------------------------------------
 # (d) threshold sweep of the minimum-base masks
 # ------------------------------------------------------------------------------------
 
@@ -865,6 +910,18 @@ def run(tier, seed):
             ctx = {"what": f.get("what"), "class": cu.class_pair(case), "leg": "base-blocks"}
             rep.violation("impl-vs-model", cu.replayable(case), f, ctx, failing_input=not f.get("no_impl"))
     rep.cov["base_block_terms_evaluated"] = n_block_terms
+    # ---- (f) read order: every second case of (a) and of (e) ----
+    n_late = 0
+    for case in [c for c in cases if c["k"] % 2 == 0 and len(c["_sv"].resp) > 0] + \
+                [c for c in block_cases if c["k"] % 2 == 0]:
+        fails, n = late_read_fails(case)
+        n_late += n
+        if n:
+            rep.dist("late-reads:" + cu.class_pair(case))
+        for f in fails:
+            ctx = {"what": f.get("what"), "class": cu.class_pair(case), "leg": "late-reads"}
+            rep.violation("impl-vs-property", dict(cu.replayable(case), late_reads=True), f, ctx)
+    rep.cov["late_read_partitions"] = n_late
     # ---- (f) masks of the partitions of a CubeSet ----
     n_set_cases = 40 if tier == "quick" else 600
     rng_s = random.Random(seed + 11)
@@ -930,7 +987,9 @@ def replay(path):
             print("REPLAY: no longer fails")
         return 1 if fails else 0
     cu.finish_case(case)
-    if case.get("subtotals"):
+    if case.get("late_reads"):
+        fails, _n = late_read_fails(case)
+    elif case.get("subtotals"):
         fails, _ = run_subtotal_case(case)
     elif case.get("base_blocks"):
         res, _n, _s = run_block_cases([case], tag="replay")
